@@ -119,10 +119,11 @@ def main():
             for prop in [meta["property"]] + EXTRA.get(i, []):
                 tasks.put(("mutant", i, os.path.join(VERIF, "seeded", i, "patch.diff"), prop))
     else:
-        ids = rest or sorted(os.path.basename(p)[:-5] for p in glob.glob(VERIF + "/seeded/refactorings/r*.diff"))
+        rdir = os.environ.get("SWEEP_REFDIR", "refactorings")
+        ids = rest or sorted(os.path.basename(p)[:-5] for p in glob.glob(VERIF + "/seeded/" + rdir + "/*.diff"))
         for i in ids:
             for k in range(1, 19):
-                tasks.put(("refactor", i, os.path.join(VERIF, "seeded", "refactorings", i + ".diff"), "C%02d" % k))
+                tasks.put(("refactor", i, os.path.join(VERIF, "seeded", rdir, i + ".diff"), "C%02d" % k))
     lock = threading.Lock()
 
     def worker(w):
